@@ -100,6 +100,39 @@ func waitCond(c *Ctx) {
 		if found {
 			cut = cutEdge(nilIf, nilSucc)
 		}
+		// (the context may be tested for nil in several places: all their nil edges are the "no context" case)
+		{
+			isCtx := func(v ssa.Value) bool {
+				for _, s := range P.Sources(v) {
+					if s == ssa.Value(ctxP) {
+						return true
+					}
+				}
+				return false
+			}
+			cifs, cnegs := P.IfsOn(fn, func(cond ssa.Value) bool {
+				b, ok := cond.(*ssa.BinOp)
+				return ok && (b.Op == token.EQL || b.Op == token.NEQ) && either(b, isCtx, isNilConst)
+			})
+			type edge struct {
+				b *ssa.BasicBlock
+				i int
+			}
+			cuts := map[edge]bool{}
+			for i, ci := range cifs {
+				ns := 0
+				if cnegs[i] {
+					ns = 1
+				}
+				if stripNotV(ci.Cond).(*ssa.BinOp).Op == token.NEQ {
+					ns = 1 - ns
+				}
+				cuts[edge{ci.Block(), ns}] = true
+			}
+			if len(cuts) > 0 {
+				cut = func(b *ssa.BasicBlock, i int) bool { return cuts[edge{b, i}] }
+			}
+		}
 		for _, w := range waits {
 			bad := P.PathExists(fn, w, an.Is(fcall), an.In(errChecks), cut)
 			q.add("PATH", "after every wake-up the context is re-checked before the predicate", !bad,
